@@ -1,5 +1,6 @@
 import QR.Proofs.Stream
 import QR.Proofs.SourceTie
+import QR.Proofs.Pinned
 /-
 C06 - the data codewords of every symbol form a conformant ISO bit stream.
 Model side: `Model.dataBits` mirrors util.create_data (headers through BitBuffer.put, QRData.write, terminator, bit padding,
@@ -87,5 +88,9 @@ theorem C06_source_create_data (version level : Nat) (segs : List Seg) :
     (∀ n, padBytes n = (List.range n).flatMap fun i => bitsBE (if Gen.Code.pad_first i then Gen.PAD0 else Gen.PAD1) 8) ∧
     Gen.Code.pad_names = ("PAD0", "PAD1") :=
   ⟨QR.SourceTie.dataBits_eq version level segs, QR.SourceTie.padBytes_eq, QR.SourceTie.createData_pieces.2.2.2⟩
+
+/-- the Python functions this property's model mirrors have, in /repo's current working tree, exactly the normalised
+    ASTs the model was written and validated against (fingerprints regenerated by T1 on every run) -/
+theorem C06_source_fingerprints : QR.Gen.fp_C06 = QR.Pinned.fp_C06 := by decide
 
 end QR.Props
